@@ -27,6 +27,25 @@ func dumpFacts(m *Model, what string) {
 		fmt.Println(string(b))
 		return
 	}
+	if strings.HasPrefix(what, "globals:") {
+		for name, v := range m.evalGlobals(strings.TrimPrefix(what, "globals:")) {
+			switch x := v.(type) {
+			case *iMap:
+				fmt.Printf("%s: map with %d entries (known=%v)\n", name, len(x.keys), x.vals != nil)
+			case *iArr:
+				n := 0
+				for _, e := range x.elems {
+					if e != nil {
+						n++
+					}
+				}
+				fmt.Printf("%s: array, %d of %d elements known\n", name, n, len(x.elems))
+			default:
+				fmt.Printf("%s: %v\n", name, v)
+			}
+		}
+		return
+	}
 	if what == "renames" {
 		for _, n := range curAliases.notes {
 			fmt.Println(n)
